@@ -109,6 +109,10 @@ int EGLPNUM_TYPENAME_ILLprice_test_for_heap (
 	int rval = 0;
 	EGLPNUM_TYPE ravg;
 
+	/* the heap is only used (and its key array only exists) with complete pricing */
+	if (keylist == 0)
+		return 0;
+
 	if (upd != 0)
 	{
 		EGLPNUM_TYPENAME_EGlpNumInitVar (ravg);
